@@ -127,9 +127,46 @@ def r3(ctx):
                   "the two climbing loops of verify_tree differ: %s" % [dict(x) for x in sk], key="C03|C03.R3|verify_tree|loops")
 
 
-RULES = [r1, r2, r2b, r3]
+def r4(ctx):
+    """writer and reader climb a block path the same way: at every level first the sibling is
+    taken (collected by the writer, shifted from the proof by the reader), then both move to the
+    parent; the reader recomputes the parent at the index it moved to"""
+    rule = "C03.R4"
+    fw = ctx.fn(MT + "::block_and_seek_proof")
+    fv = ctx.fn(VERIFY_TREE)
+    fs = ctx.fn(MT + "::seek_proof")
+    if not (need(ctx, P, rule, MT + "::block_and_seek_proof", fw) and need(ctx, P, rule, VERIFY_TREE, fv) and need(ctx, P, rule, MT + "::seek_proof", fs)):
+        return
+    SIB, PAR = "flat_tree::Iterator::sibling", "flat_tree::Iterator::parent"
+    for f, nm in ((fw, "block_and_seek_proof"), (fs, "seek_proof")):
+        ok = False
+        for h, body, _ in f.loops():
+            sib = [s for s in sites(f, SIB) if s in body]
+            par = [s for s in sites(f, PAR) if s in body]
+            req = [s for s in sites(f, MT_REQUIRED_NODE) if s in body]
+            if sib and par and req:
+                ok = len(sib) == 1 and len(par) == 1 and f.dominates(sib[0], par[0]) and all(f.dominates(sib[0], r) and f.can_reach(r, par[0]) for r in req)
+        ctx.check(P, rule, "%s: sibling collected, then move to the parent, once per level" % nm, ok, "loop: iter.sibling(); required_node(iter.index()); iter.parent()",
+                  "%s does not collect the sibling before moving to the parent exactly once per level" % nm, key="C03|C03.R4|%s|climb" % nm)
+    n = 0
+    for h, body, _ in fv.loops():
+        sh = [s for s in sites(fv, NQ_SHIFT) if s in body]
+        pn = [s for s in sites(fv, PARENT_NODE) if s in body]
+        if not (sh and pn):
+            continue
+        n += 1
+        a = fv.arg_origin(sh[0], 1)
+        i = fv.arg_origin(pn[0], 0)
+        good = strip(a)[0] == "call" and strip(a)[2] == SIB and strip(i)[0] == "call" and strip(i)[2] == PAR and fv.dominates(sh[0], pn[0])
+        ctx.check(P, rule, "verify_tree: shift(iter.sibling()) then parent_node(iter.parent(), ..) per level (loop %d)" % n, good, "reader takes the sibling the writer collected and recomputes the parent at iter.parent()",
+                  "verify_tree loop shifts %s and recomputes the parent at %s" % (term_str(a)[:50], term_str(i)[:50]), key="C03|C03.R4|verify_tree|climb %d" % n)
+    if n != 2:
+        ctx.missing(P, rule, "verify_tree: two climbing loops", "found %d" % n)
+
+
+RULES = [r1, r2, r2b, r3, r4]
 EXPLANATION = ("C03 (honest proofs accepted, replicas converge): acceptance and convergence depend on flat-tree arithmetic that no structural rule captures; decided narrowly: create_proof reads the value for "
                "the proof's own block index, returns Ok(None) without building a proof when that block is not held, and passes request and proof parts through unchanged (R1); byte_offset_in_changeset sums "
-               "root lengths over the same root list in which it searched the position, and its panic-capable constructs are discharged (R2); sibling agreement: upgrade_proof / additional_upgrade_proof share branch conditions and flat-tree navigation except for the sub-proof inclusion, and verify_tree's two climbing loops are the same walk (R3).")
+               "root lengths over the same root list in which it searched the position, and its panic-capable constructs are discharged (R2); sibling agreement: upgrade_proof / additional_upgrade_proof share branch conditions and flat-tree navigation except for the sub-proof inclusion, and verify_tree's two climbing loops are the same walk (R3); writer (block_and_seek_proof, seek_proof) and reader (verify_tree) climb sibling-then-parent once per level, the reader shifting iter.sibling() and recomputing at iter.parent() (R4).")
 NOT_DECIDED = ("that any honest proof verifies; agreement of node counts with missing_nodes; partial upgrades; convergence of lengths and bytes; request orders; replica reopen — the bulk of the property is not decided statically.")
 ASSUMPTIONS = ["flat_tree index arithmetic is correct"]
